@@ -74,6 +74,10 @@ type Exec struct {
 	stale      map[string][]uint64
 	trigActive int
 	bursts     int
+	// calls issued by the harness that have not returned yet (watchdog, see main)
+	pending   map[int]*pendingCall
+	pendingID int
+	planLeft  int // plan tasks (slots, clients, lookups) still running
 	root       string // root-cause class shared by every consequence seen in this run
 	cutOff     string // transient root cause noted during the run (see noteCutOff)
 	c08Pending []c08Refusal
@@ -176,7 +180,7 @@ func Run(t *testing.T, prop string, seed uint64, tier string, replay *hcommon.Re
 	cfg := simrt.Config{
 		Chooser:  chooser,
 		EnvSeed:  envSeed,
-		MaxSteps: 3_000_000,
+		MaxSteps: 4_000_000,
 		MaxDepth: 1500,
 		TraceCap: traceCap(),
 		Stall: func(site string, draw func() uint64) time.Duration {
@@ -366,28 +370,56 @@ func (ex *Exec) main() {
 			}
 		}
 	}
+	ex.planLeft = len(p.Nodes) + len(p.Clients) + len(p.Lookups)
 	for i := range p.Nodes {
 		wg.Add(1)
-		simrt.GoGroup(fmt.Sprintf("h:slot%d", i), "", func() { defer wg.Done(); ex.slotTask(i) })
+		simrt.GoGroup(fmt.Sprintf("h:slot%d", i), "", func() { defer wg.Done(); defer ex.planDone(); ex.slotTask(i) })
 	}
 	for ci := range p.Clients {
 		wg.Add(1)
-		simrt.GoGroup(fmt.Sprintf("h:client%d", ci), "", func() { defer wg.Done(); ex.clientTask(ci) })
+		simrt.GoGroup(fmt.Sprintf("h:client%d", ci), "", func() { defer wg.Done(); defer ex.planDone(); ex.clientTask(ci) })
 	}
 	for li := range p.Lookups {
 		wg.Add(1)
-		simrt.GoGroup(fmt.Sprintf("h:lookup%d", li), "", func() { defer wg.Done(); ex.lookupTask(li) })
+		simrt.GoGroup(fmt.Sprintf("h:lookup%d", li), "", func() { defer wg.Done(); defer ex.planDone(); ex.lookupTask(li) })
+	}
+	// wait for the plan tasks - with a watchdog: a call into node code that never returns must not turn the run
+	// into a silent step-budget abort
+	for {
+		ex.mu.Lock()
+		left := ex.planLeft
+		ex.mu.Unlock()
+		if left == 0 {
+			break
+		}
+		simrt.Sleep(time.Second, "h:main-wait")
+		if hung := ex.hungCalls(); len(hung) > 0 {
+			ex.reportHung(hung)
+			ex.res.Abort = "hung-calls"
+			return
+		}
 	}
 	wg.Wait()
 	ex.quietPhase = true
 	simrt.YieldAlways("h:main-joined")
 	for ex.trigActive > 0 {
 		simrt.Sleep(50*time.Millisecond, "h:wait-triggers")
+		if hung := ex.hungCalls(); len(hung) > 0 {
+			ex.reportHung(hung)
+			ex.res.Abort = "hung-calls"
+			return
+		}
 	}
 	c.Net.Quiet()
 	simrt.Event("all plan tasks returned; quiescing")
 	ex.quiesced = ex.quiesce()
 	ex.finalChecks()
+}
+
+func (ex *Exec) planDone() {
+	ex.mu.Lock()
+	ex.planLeft--
+	ex.mu.Unlock()
 }
 
 func (ex *Exec) usableVia(pref int, self *NodeH) *NodeH {
@@ -543,6 +575,8 @@ func (ex *Exec) doOp(entry *NodeH, client int, op COp, opIdx int, final bool) *O
 	child := fmt.Sprintf("c%d", op.Arg)
 	rec.Call = simrt.Stamp()
 	rec.T0 = simrt.Elapsed()
+	untrack := ex.track("kv", entry, fmt.Sprintf("%s(%s) via %s", op.Kind, key, entry.Name))
+	defer untrack()
 	var err error
 	switch op.Kind {
 	case "put":
@@ -654,7 +688,9 @@ func (ex *Exec) lookupTask(li int) {
 			simrt.Probe("lookup-on-joining-node")
 		}
 		t0 := time.Now()
+		untrack := ex.track("lookup", h, fmt.Sprintf("FindSuccessor(%d) on %s (id %d, state %s)", key, h.Name, h.ID, st))
 		got, err := h.Node.FindSuccessor(key)
+		untrack()
 		took := time.Since(t0)
 		lr := LookupRec{Node: h.Name, State: st.String(), Key: key, Took: took}
 		if err != nil {
@@ -740,6 +776,90 @@ func (ex *Exec) neighbour(h *NodeH, dir int) *NodeH {
 		}
 	}
 	return nil
+}
+
+type pendingCall struct {
+	kind, desc string
+	node       *NodeH
+	since      time.Duration
+}
+
+// track registers a call the harness is about to issue to node code; the returned function is called when it returns.
+func (ex *Exec) track(kind string, node *NodeH, desc string) func() {
+	ex.mu.Lock()
+	if ex.pending == nil {
+		ex.pending = map[int]*pendingCall{}
+	}
+	ex.pendingID++
+	id := ex.pendingID
+	ex.pending[id] = &pendingCall{kind: kind, desc: desc, node: node, since: simrt.Elapsed()}
+	ex.mu.Unlock()
+	return func() {
+		ex.mu.Lock()
+		delete(ex.pending, id)
+		ex.mu.Unlock()
+	}
+}
+
+// hungLimit: every call the harness issues is bounded by the code's own deadlines and retry budgets (ten attempts of a
+// join or leave, each a handful of RPCs with a 10 s deadline; six attempts of a KV operation; a lookup of a few hops) -
+// a call that is still outstanding after 25 simulated minutes will never return.
+const hungLimit = 25 * time.Minute
+
+func (ex *Exec) hungCalls() []*pendingCall {
+	ex.mu.Lock()
+	defer ex.mu.Unlock()
+	var ids []int
+	for id, pc := range ex.pending {
+		if simrt.Elapsed()-pc.since > hungLimit {
+			ids = append(ids, id)
+		}
+	}
+	sort.Ints(ids)
+	var out []*pendingCall
+	for _, id := range ids {
+		out = append(out, ex.pending[id])
+	}
+	return out
+}
+
+// reportHung turns calls that never returned into violations: a lookup directly (C09); for any other call every member
+// is asked for a lookup from a fresh task, and the ones that do not answer either are reported.
+func (ex *Exec) reportHung(hung []*pendingCall) {
+	simrt.Probe("watchdog-tripped")
+	names := ""
+	for _, pc := range hung {
+		simrt.Event("HUNG %s %s since %v", pc.kind, pc.desc, pc.since)
+		names += fmt.Sprintf("%s %s (issued at %v); ", pc.kind, pc.desc, pc.since.Round(time.Millisecond))
+		if pc.kind == "lookup" {
+			ex.res.Violate("C09", "lookup-never-returned", "%s did not return within %v of simulated time", pc.desc, hungLimit)
+		}
+	}
+	answered := map[string]bool{}
+	var asked []*NodeH
+	for _, h := range ex.c.Slots {
+		if h == nil || !h.Joined || h.Crashed || h.Left {
+			continue
+		}
+		asked = append(asked, h)
+		simrt.GoGroup("h:probe-"+h.Name, "", func() {
+			h.Node.FindSuccessor((h.ID + 1) % ringSize)
+			ex.mu.Lock()
+			answered[h.Name] = true
+			ex.mu.Unlock()
+		})
+	}
+	simrt.Sleep(5*time.Minute, "h:probe-wait")
+	for _, h := range asked {
+		ex.mu.Lock()
+		ok := answered[h.Name]
+		ex.mu.Unlock()
+		if !ok {
+			ex.res.Violate("C09", "lookup-never-returned", "after calls that never returned (%s) a lookup issued to %s (id %d) did not return within 5 simulated minutes", names, h.Name, h.ID)
+			ex.res.Violate("C06", "node-not-serving/hung", "node %s (id %d) does not answer any more; calls that never returned: %s", h.Name, h.ID, names)
+			ex.res.Violate("C02", "node-not-serving/hung", "node %s (id %d) does not answer any more, the ring cannot settle; calls that never returned: %s", h.Name, h.ID, names)
+		}
+	}
 }
 
 // extreme returns the current member with the largest (or smallest) identifier.
@@ -847,7 +967,9 @@ func (ex *Exec) join(h, via *NodeH) {
 	}
 	simrt.Event("join %s id=%d via %s ...", h.Name, h.ID, via.Name)
 	simrt.SetGroup(h.Name)
+	untrack := ex.track("join", h, fmt.Sprintf("Join of %s (id %d) via %s", h.Name, h.ID, via.Name))
 	err = h.Node.Join(remote)
+	untrack()
 	simrt.SetGroup("")
 	h.JoinErr = err
 	h.Joined = err == nil
@@ -868,7 +990,9 @@ func (ex *Exec) leave(h *NodeH, why string) {
 	h.LeaveStart = simrt.Elapsed()
 	simrt.Event("leave %s id=%d (%s) ...", h.Name, h.ID, why)
 	simrt.SetGroup(h.Name)
+	untrack := ex.track("leave", h, fmt.Sprintf("Leave of %s (id %d)", h.Name, h.ID))
 	h.Node.Leave()
+	untrack()
 	simrt.SetGroup("")
 	if h.Node.VerifState() == spec.Left {
 		h.Left = true
